@@ -14,7 +14,9 @@ RULE = (
     "generated schemas (logical types in 40%, by-name references, unions whose branches are "
     "references, recursion through ['null', T], through arrays and maps, error-kind records via "
     "targeted cases, raw and pre-parsed) x counts n in {0,1,2,7,50} x three states of the global "
-    "random source (random.seed(k)). Oracle: generate_many yields exactly n values, generate_one "
+    "random source (random.seed(k)) plus one pass in which the library's draws land on the ends of "
+    "their ranges (randint -> a, b, a+1, b-1; random() -> 0.0, 1-2^-53, 2^-1074; all reachable "
+    "states), plus a second call after the caller's raw schema dict was edited in place. Oracle: generate_many yields exactly n values, generate_one "
     "one; each value conforms to the schema under the independent conformance predicate (logical "
     "types through the reference conversions) and validate() accepts it; schemaless_writer and "
     "writer() accept it and the readers return. distinct = hash(schema shape, seed, n); "
@@ -29,7 +31,8 @@ TIME_LIMIT = {"quick": 40, "thorough": 560}
 SHARDS = 16
 REACH = {
     "quick": {"schemas": 2000, "values_checked": 20000, "count_checks": 8000, "logical_schemas": 300,
-              "reference_schemas": 500, "parsed_schema_inputs": 800},
+              "reference_schemas": 500, "parsed_schema_inputs": 800,
+              "extreme_values_checked": 5000, "extreme_draws": 20000, "edited_in_place_checked": 500},
     "thorough": {"schemas": 60000},
 }
 
@@ -38,6 +41,32 @@ def plan(tier, seed):
     n = N[tier]
     return [{"shard": i, "n": n // SHARDS, "seed": seed, "tier": tier, "time_limit": TIME_LIMIT[tier], "witness": i == 0}
             for i in range(SHARDS)]
+
+
+class ExtremeRandom:
+    """Stand-in for the `random` module inside fastavro.utils: every answer is one the real
+    generator can give in some state, but the ends of the requested ranges are frequent."""
+
+    def __init__(self, r):
+        self.r = r
+        self.extreme = 0
+
+    def randint(self, a, b):
+        x = self.r.random()
+        if x < 0.5:
+            self.extreme += 1
+            return (a, b, min(a + 1, b), max(b - 1, a))[int(x * 8)]
+        return self.r.randint(a, b)
+
+    def random(self):
+        x = self.r.random()
+        if x < 0.3:
+            self.extreme += 1
+            return (0.0, 1.0 - 2.0 ** -53, 2.0 ** -1074)[int(x * 10)]
+        return self.r.random()
+
+    def __getattr__(self, name):
+        return getattr(self.r, name)
 
 
 def one_schema(sh, fa, rng, js, feats):
@@ -95,6 +124,53 @@ def one_schema(sh, fa, rng, js, feats):
             st, back = guard(lambda: list(fa.reader(io.BytesIO(fo.getvalue()))))
             if st == "exc" or len(back) != n:
                 return ("values-not-readable", "reader: %s" % (exc_name(back) if st == "exc" else len(back)), dict(info, seed=k, n=n))
+    # ---- states of the random source in which draws land on the ends of their ranges
+    import fastavro.utils as U
+
+    ext = ExtremeRandom(random.Random(rng.getrandbits(40)))
+    real = U.random
+    U.random = ext
+    try:
+        st, vals = guard(lambda: list(generate_many(arg, 5)))
+    finally:
+        U.random = real
+    if st == "exc":
+        return ("generate-raised", "generate_many(schema, 5) raised %s when draws hit the ends of their ranges" % exc_name(vals), dict(info, extreme=True))
+    if len(vals) != 5:
+        return ("wrong-count", "generate_many(schema, 5) yielded %d values" % len(vals), dict(info, extreme=True))
+    sh.count("extreme_draws", ext.extreme)
+    for v in vals:
+        try:
+            fits = RC.conforms(node, v) or RC.conforms(node, v, loose=True)
+        except RecursionError:
+            return ("generate-raised", "the generated value nests deeper than the interpreter's recursion limit (RecursionError while walking it)", dict(info, extreme=True))
+        if not fits:
+            return ("value-does-not-conform", "generated %s does not conform to the schema (draws at the ends of their ranges)" % printable(v, 250), dict(info, extreme=True, value=v))
+        st, ok = guard(fa.validate, v, arg, raise_errors=False)
+        if st == "exc" or ok is not True:
+            return ("value-not-validated", "validate(generated value) -> %s (draws at the ends of their ranges)" % (exc_name(ok) if st == "exc" else ok), dict(info, extreme=True, value=v))
+        out = io.BytesIO()
+        st, err = guard(fa.schemaless_writer, out, arg, v)
+        if st == "exc":
+            return ("value-not-writable", "schemaless_writer rejected a generated value (draws at the ends of their ranges): %s" % exc_name(err), dict(info, extreme=True, value=v))
+        st, back = guard(fa.schemaless_reader, io.BytesIO(out.getvalue()), arg)
+        if st == "exc":
+            return ("value-not-readable", "schemaless_reader raised %s on a written generated value %s (draws at the ends of their ranges)" % (exc_name(back), printable(v, 120)), dict(info, extreme=True, value=v))
+        sh.count("extreme_values_checked")
+    # ---- the caller's schema object edited in place between two calls: the second call follows the new content
+    if not parsed_input and isinstance(arg, dict):
+        js2 = {"type": "record", "name": "VfEdited", "fields": [{"name": "a", "type": "long"}, {"name": "b", "type": ["null", "string"]},
+                                                                 {"name": "c", "type": {"type": "enum", "name": "VfE", "symbols": ["x", "y"]}}]}
+        node2, _env2 = RS.build(js2)
+        arg.clear()
+        arg.update(copy.deepcopy(js2))
+        st, vals = guard(lambda: list(generate_many(arg, 3)) + [generate_one(arg)])
+        if st == "exc":
+            return ("generate-raised", "after the schema object was edited in place: %s" % exc_name(vals), dict(info, edited_to=js2))
+        for v in vals:
+            if not RC.conforms(node2, v):
+                return ("value-does-not-conform", "after the schema object was edited in place, generated %s does not conform to its new content" % printable(v, 200), dict(info, edited_to=js2, value=v))
+        sh.count("edited_in_place_checked")
     sh.count("schemas")
     if "logical" in feats:
         sh.count("logical_schemas")
